@@ -24,7 +24,7 @@ ONCE_IDS = ("Stage::execute", "Stage::execute_seq", "SendDispatcher::dispatch", 
             "Dispatcher::dispatch", "Dispatcher::dispatch_thread_local", "<T as RunNow>::run_now", "<BatchControllerSystem as System>::run")
 
 
-def run(ctx, report):
+def _run_rules(ctx, report):
     for config in ctx.configs:
         facts = ctx.facts(config)
         report.guard("C14.NOSWALLOW", R.noswallow, ctx, report, "C14.NOSWALLOW", facts, config)
@@ -36,3 +36,10 @@ def run(ctx, report):
     P.check(ctx, report, "C14.NOSWALLOW", ["catch_unwind", "resume_unwind", "panic_hook", "thread_handoff"])
     P.check(ctx, report, "C14.RELEASE", ["forget_guard", "manually_drop_guard", "leak_guard", "launder_guard"])
     P.check(ctx, report, "C14.LOCK", ["write_lock"])
+
+
+def run(ctx, report):
+    _run_rules(ctx, report)
+    from .. import shared as _S
+    for config in ctx.configs:
+        report.guard("C14.ENCAPSULATED", _S.encapsulated, ctx, report, "C14.ENCAPSULATED", ctx.facts(config), config, "C14")
